@@ -16,7 +16,7 @@ import (
 var NavDriver = c05.Driver{
 	Defs: `
 def b(f): try f catch errstr;
-def nav($v; $path; $tb):
+def nav($v; $path; $tb; $par):
   ( $v | b(topath) ) as $tp
   | ( if ($tp | type) == "array" then b($v | root | getpath($tp)) else "ERR:no path" end ) as $g
   | [ $v
@@ -24,7 +24,7 @@ def nav($v; $path; $tb):
     , $tp
     , $g
     , b($v | parent)
-    , b([$v | parents])
+    , (if $par then b([$v | parents]) else "NOTCHECKED" end)
     , b($v | root)
     , b($v | buffer_root)
     , b($v | format_root)
@@ -42,25 +42,27 @@ def nav($v; $path; $tb):
     , (if $tb or (($v | type) != "array" and ($v | type) != "object") then b($v | tobits) else null end)
     , (if $tb or (($v | type) != "array" and ($v | type) != "object") then b($g | tobits) else null end)
     ];
-def descend($path; $tb):
+def descend($path; $tb; $par):
   . as $v
-  | nav($v; $path; $tb)
+  | nav($v; $path; $tb; $par)
   , ( [path(.[]?)] as $ks
     | [.[]?] as $vs
     | range($ks | length) as $i
     | $vs[$i]
     | select(_exttype == "decode_value")
-    | descend($path + $ks[$i]; $tb)
+    | descend($path + $ks[$i]; $tb; $par)
     );
 `,
-	Tree: `. as $root | sized($c; 1) | if type == "array" then [$root | descend([]; $c.f == "vdsl" or $c.f == "vdsla")] else . end`,
+	// fq's parents costs time proportional to the size of the parent per call (it compares
+	// decode values with null): it is exercised on trees of at most 20000 values
+	Tree: `. as $root | sized($c; 1) | if type == "array" then length as $n | [$root | descend([]; $c.f == "vdsl" or $c.f == "vdsla"; $n <= 20000)] else . end`,
 }
 
 type Finding struct{ Sig, Msg string }
 
 type Stats struct {
 	Values, InArray, GapsInArrays, BelowNested, BelowFormat, TobitsCompared, Unmatched, KnownTLS, Interesting int64
-	StructFieldWithIndex, RootWithIndex                                                                      int64
+	StructFieldWithIndex, RootWithIndex, ParentsNotChecked                                                   int64
 }
 
 type rec struct {
@@ -321,7 +323,9 @@ func JudgeTree(t *c05.Tree, st *Stats) []Finding {
 		} else if dvOf(r.Parent) != chain[0] {
 			add(prefix+"parent:other-node", "value at %s: parent is %s, it was reached from %s", ps, dvPath(r.Parent), c05.PathString(r.Path[:len(r.Path)-1]))
 		}
-		if pa, ok := r.Parents.([]any); !ok || len(pa) != len(chain) {
+		if s, ok := r.Parents.(string); ok && s == "NOTCHECKED" {
+			st.ParentsNotChecked++
+		} else if pa, ok := r.Parents.([]any); !ok || len(pa) != len(chain) {
 			add(prefix+"parents:length", "value at %s (depth %d): parents outputs %v", ps, len(chain), summarize(r.Parents))
 		} else {
 			for j := range pa {
